@@ -70,6 +70,8 @@ def canon(tag, v, env):
         return "p(" + canon("int", x, env) + "," + canon("str", y, env) + ")"
     if tag == "module":
         return "m" + str(env["tokens"][id(v)])
+    if tag == "complex":
+        return "c" + repr(complex(v))
     raise ValueError(tag)
 
 
@@ -83,14 +85,17 @@ GEN_SPECS = {
     "GB": ("fresh", None, [("f", "float", None), ("o", "optint", "NONE"), ("e", "enum", Color.RED), ("t", "optstr", "NONE")]),
     "GC": ("fresh", None, [("n", "nested", "FACTORY"), ("p", "prefixed", "ONE"), ("s", "scalar", 1)]),
     "GD": ("fresh", None, [("m", "module", None), ("k", "int", 0)]),
+    "GX": ("fresh", None, [("c", "complex", None), ("k", "int", 0)]),     # a value the naming serialiser may refuse: calls may raise
+    "GU": ("uncached", None, [("a", "int", None)]),                       # enable_cache=False, result depends on more than its parameters
 }
+MAYRAISE = {"GX"}
 KINDS = {g: s[0] for g, s in GEN_SPECS.items()}
 
 
 def make_env(h):
     """Fresh generators (and a fresh cache) for one history."""
     h.generator.cache.reset()
-    env = {"log": [], "nested": [], "mods": {}, "order": [], "tokens": {}, "gens": {}, "ptypes": {}}
+    env = {"log": [], "nested": [], "mods": {}, "order": [], "tokens": {}, "gens": {}, "ptypes": {}, "modkind": {}}
 
     @h.paramclass
     class NP:
@@ -98,7 +103,7 @@ def make_env(h):
         y = h.Param(dtype=str, desc="y", default="q")
     env["NP"] = NP
     dt = {"int": int, "float": float, "str": str, "optint": Optional[int], "optstr": Optional[str], "enum": Color,
-          "prefixed": h.Prefixed, "scalar": h.Scalar, "nested": NP, "module": h.Instantiable}
+          "prefixed": h.Prefixed, "scalar": h.Scalar, "nested": NP, "module": h.Instantiable, "complex": complex}
     m1 = h.Module(name="Unit1")
     m2 = h.Module(name="Unit2")
     env["units"] = [m1, m2, h.Module(name="Unit3"), h.Module(name="Unit4")]
@@ -147,6 +152,9 @@ def make_env(h):
                 if kind == "pass":
                     return subcall(callee, a=params.a, b="p")
                 m = h.Module()
+                if kind == "uncached":
+                    env["ucount"] = env.get("ucount", 0) + 1
+                    m.add(h.Signal(name="s", width=env["ucount"]))
                 if kind == "nest":
                     m.add(subcall(callee, a=params.a, b="n")(), name="i")
                 elif kind == "rec" and params.a > 0:
@@ -156,7 +164,7 @@ def make_env(h):
         body = mk_body(gname, kind, callee)
         body.__name__ = gname
         body.__annotations__ = {"params": P, "return": h.Module}
-        env["gens"][gname] = h.generator(body)
+        env["gens"][gname] = h.generator(body) if kind != "uncached" else h.generator(enable_cache=False)(body)
     return env
 
 
@@ -191,7 +199,7 @@ def replay(args):
         g, kw = concretize(env, step)
         env["log"].clear()
         env["nested"].clear()
-        ev = {"tid": tid, "seq": seq, "op": "call", "g": g, "kind": KINDS[g], "kinds": KINDS, "form": step["form"], "key": "", "raised": False,
+        ev = {"tid": tid, "seq": seq, "op": "call", "g": g, "kind": KINDS[g], "mayraise": g in MAYRAISE, "kinds": KINDS, "form": step["form"], "key": "", "raised": False,
               "mod": 0, "name": "", "nested": [], "bodies": [], "mods": [], "npkg": 0, "nmods": 0}
         try:
             P = env["ptypes"][g]
@@ -201,16 +209,17 @@ def replay(args):
             else:
                 m = env["gens"][g](P(**kw))
             ev["mod"] = env["token"](m)
+            env["modkind"].setdefault(id(m), KINDS[g])
             ev["name"] = m.name
         except Exception as ex:
             ev["raised"] = True
             ev["exc"] = f"{type(ex).__name__}: {str(ex)[:100]}"
         ev["nested"] = [list(x) for x in env["nested"]]
         ev["bodies"] = [list(x) for x in env["log"]]
-        ev["mods"] = [[env["mods"][id(m)], m.name] for m in env["order"]]
+        ev["mods"] = [[env["mods"][id(m)], m.name, env["modkind"].get(id(m), "fresh")] for m in env["order"]]
         events.append(ev)
     # final: all generated modules in one design
-    ev = {"tid": tid, "seq": seq + 1, "op": "export", "g": "", "kind": "", "kinds": KINDS, "form": "", "key": "", "raised": False, "mod": 0, "name": "",
+    ev = {"tid": tid, "seq": seq + 1, "op": "export", "g": "", "kind": "", "mayraise": False, "kinds": KINDS, "form": "", "key": "", "raised": False, "mod": 0, "name": "",
           "nested": [], "bodies": [], "mods": [], "npkg": 0, "nmods": len(env["order"])}
     try:
         top = h.Module(name="TopOfAll")
@@ -230,7 +239,7 @@ STRS = ["x", "x b=y", "y b=z", "z", "None", "", "a=1", "x" * 119, "x" * 120, "x"
 
 
 def rich_step(rnd):
-    g = rnd.choice(["GS", "GB", "GC", "GD", "GA", "GA", "GP", "GN"])
+    g = rnd.choice(["GS", "GS", "GB", "GC", "GD", "GA", "GA", "GP", "GN", "GX", "GU"])
     form = rnd.choice(["kw", "inst"])
     if g == "GS":
         kw = {"a": rnd.choice(STRS)}
@@ -252,6 +261,10 @@ def rich_step(rnd):
             kw["p"] = rnd.choice([["1", 0], ["1000", -3], ["0.001", 3], ["1.0", 0], ["1", 3], ["1E+3", 0], ["2", 0], ["1000000", -6]])
         if rnd.random() < 0.6:
             kw["s"] = rnd.choice([1, 1.0, "1", "1.0", "1e0", ["1000", -3], "w/5", "w /5", 2])
+    elif g == "GX":
+        kw = {"c": rnd.choice([1j, 2j, 1 + 1j]), "k": rnd.choice([0, 1])}
+    elif g == "GU":
+        kw = {"a": rnd.choice([1, 2])}
     elif g == "GD":
         kw = {"m": rnd.choice([0, 1, 2, 3])}
         if rnd.random() < 0.5:
@@ -291,8 +304,9 @@ def run(tier, seed, replay_file=None):
     if replay_file:
         hists = [json.loads(Path(replay_file).read_text())["case"]]
     else:
-        r = tlc.must_ok(tlc.run("mc/MC_GenCache.tla", "mc/MC_GenCache_q.cfg", workers=1, tag="c09gen"), "MC_GenCache")
-        o.add_mc("MC_GenCache", r, "4 gens x 4 spellings x 2 forms, MaxCalls=3")
+        cfg = "mc/MC_GenCache_q3.cfg" if tier == "quick" else "mc/MC_GenCache_q.cfg"
+        r = tlc.must_ok(tlc.run("mc/MC_GenCache.tla", cfg, workers=1, tag="c09gen"), "MC_GenCache")
+        o.add_mc("MC_GenCache", r, f"{cfg}: 4 generator kinds x spellings x 2 forms, MaxCalls=3")
         hists = list(r.cases)
         o.exhaustive = True
         if tier == "thorough":
